@@ -550,6 +550,24 @@ impl<'tcx> Dumper<'tcx> {
                         );
                         let hex: String = bytes.iter().map(|b| format!("{:02x}", b)).collect();
                         items.push(("ptr_bytes", jstr(&hex)));
+                        // function pointers stored in the constant the reference points to (`&TABLE` of (fn, value) pairs)
+                        let start = off.bytes() as usize;
+                        let mut relocs: Vec<String> = Vec::new();
+                        for (roff, prov2) in a.provenance().ptrs().iter() {
+                            let ro = roff.bytes() as usize;
+                            if ro < start {
+                                continue;
+                            }
+                            if let rustc_middle::mir::interpret::GlobalAlloc::Function { instance, .. } =
+                                tcx.global_alloc(prov2.alloc_id())
+                            {
+                                let f = self.callee(owner, instance.def_id(), instance.args);
+                                relocs.push(jobj(&[("off", (ro - start).to_string()), ("fn", f)]));
+                            }
+                        }
+                        if !relocs.is_empty() {
+                            items.push(("relocs", jarr(&relocs)));
+                        }
                     } else if let rustc_middle::mir::interpret::GlobalAlloc::Static(sdid) =
                         tcx.global_alloc(prov.alloc_id())
                     {
